@@ -996,6 +996,36 @@ __CPROVER_assigns(g_push, g_push_len, g_push_idx, g_eidx_i, g_eidx_j)
                   harness=H("  int in_i = nondet_int(); g_nb_v = nondet_int(); g_nb_d = nondet_float(); g_push = 0;", "edge_sparse(in_i);"),
                   desc="get_edges, sparse matrices, one stored neighbour (v, d) of i: it becomes an edge exactly when v < i (each undirected edge once, from its larger end), with its stored length and the index of {i, v}"))
 
+def column_order_units(U):
+    """Greater_diameter_or_smaller_index: the order in which columns are reduced and heaps pop their pivots - larger
+    diameter first, ties by smaller index; a strict total order on entries with distinct indices (lemma)."""
+    G = ND + """
+#include <math.h>
+typedef float value_t; typedef unsigned long simplex_t;
+typedef struct { value_t diam; simplex_t id; } Entry;
+static value_t get_diameter(Entry e) { return e.diam; }
+static simplex_t filt_get_index(Entry e) { return e.id; }
+"""
+    con = """
+__CPROVER_requires(!isnan(a.diam) && !isnan(b.diam))
+__CPROVER_ensures(__CPROVER_return_value == (a.diam > b.diam || (a.diam == b.diam && a.id < b.id)))
+__CPROVER_assigns()
+"""
+    def mk(contract, canary=None):
+        return Fn(RP, r"bool operator\(\)\(const Entry& a, const Entry& b\) const", "col_before", contract, within=r"struct Greater_diameter_or_smaller_index \{",
+                  sig_subs=[(r"operator\(\)", "col_before")], subs=[(r"filtp->get_index\(", "filt_get_index(")], canary=canary)
+    U.append(Unit("column_order.greater_diameter_or_smaller_index", "C11", [mk(con, (r"filt_get_index\(a\) < filt_get_index\(b\)", "filt_get_index(a) <= filt_get_index(b)"))], enforce="col_before", globals_=G,
+                  inputs=["in_a", "in_b"], harness=H("  Entry in_a, in_b; in_a.diam = nondet_float(); in_a.id = nondet_ulong(); in_b.diam = nondet_float(); in_b.id = nondet_ulong();", "col_before(in_a, in_b);"),
+                  desc="Greater_diameter_or_smaller_index: a comes before b exactly when its diameter is larger, or equal with a smaller index (all non-NaN diameters, infinities included)"))
+    lem = """  Entry a, b, c; a.diam = nondet_float(); a.id = nondet_ulong(); b.diam = nondet_float(); b.id = nondet_ulong(); c.diam = nondet_float(); c.id = nondet_ulong();
+  __CPROVER_assume(!isnan(a.diam) && !isnan(b.diam) && !isnan(c.diam));
+  bool ab = col_before(a, b), ba = col_before(b, a), bc = col_before(b, c), ac = col_before(a, c), aa = col_before(a, a);
+  __CPROVER_assert(!aa, "irreflexive");
+  __CPROVER_assert(a.id == b.id ? !(ab && ba) : (ab != ba), "asymmetric, and total on entries with distinct indices");
+  __CPROVER_assert(!(ab && bc) || ac, "transitive");"""
+    U.append(Unit("column_order.strict_total_order", "C11", [mk("")], no_enforce=True, globals_=G, inputs=["a", "b", "c"], harness=H(lem, ""),
+                  desc="lemma: the column order is a strict total order on entries with distinct simplex indices, so sorted columns and heap pops are uniquely determined"))
+
 def enumerator_units(U):
     """dense Simplex_coboundary_enumerator_::next(): filters the raw cofacets by the threshold.  next_raw (the
     enumeration itself) is a ghost stub that yields an arbitrary finite sequence of candidates."""
@@ -1265,6 +1295,7 @@ def units(tier):
     emergent_units(U)
     add_coboundary_units(U)
     get_edges_units(U)
+    column_order_units(U)
     return U
 
 
